@@ -6,6 +6,7 @@ import Decaf.Props.C03
 import Decaf.Lemmas.Formulas.ArkCompress
 import Decaf.Lemmas.Formulas.MinCompress
 import Decaf.Lemmas.Formulas.Eq
+import Decaf.Lemmas.Formulas.ConvForms
 
 namespace C03.Translated
 open Model Edwards Decaf
@@ -36,6 +37,13 @@ theorem eq_iff_encode_eq_mincode (h : SRContract sr) {c c' : Ext} {p p' : E} (hr
     (he : Point.IsEven p) (he' : Point.IsEven p') :
     Code.minEq c c' = true ↔ Code.minEncodeField sr c = Code.minEncodeField sr c' := by
   rw [Code.minEq_eq, Code.minEncodeField_eq]; exact C03.eq_iff_encode_eq h hr hr' he he'
+
+/-- every encoding conversion (`From<Element>` / `From<&Element>` for `Encoding`, `From<Element>` for `[u8; 32]`, both
+backends) is the encoder, and the byte-array conversions (`[u8; 32]` ↔ `Encoding`) are the identity -/
+theorem encode_entry_points {α : Type} (enc : α → List ℕ) (e : α) (bytes : List ℕ) :
+    (∀ f ∈ (Gen.ConvForms.encodeForms : List (String × ((α → List ℕ) → α → List ℕ))), f.2 enc e = enc e) ∧
+    (∀ f ∈ (Gen.ConvForms.bytesForms : List (String × (List ℕ → List ℕ))), f.2 bytes = bytes) :=
+  ⟨fun f hf => Formulas.ConvForms.encodeForms_correct f hf enc e, fun f hf => Formulas.ConvForms.bytesForms_correct f hf bytes⟩
 
 end C03.Translated
 
